@@ -150,12 +150,28 @@ def run_check(modname, tier, seed, workers=None):
             last[0] = time.time()
             log('  ... %d/%d units, %.0fs' % (i, n, time.time() - t0))
 
+    extra_box = []
+    th = None
+    if hasattr(mod, 'post'):
+        import threading
+
+        def _post():
+            try:
+                extra_box.append(mod.post(tier, seed, log))
+            except BaseException as e:
+                import traceback
+                extra_box.append({'problems': ['post-check failed: %r %s' % (e, traceback.format_exc()[-800:])]})
+        th = threading.Thread(target=_post)
+        th.start()
     results, wall = parallel.run_units(twins + units, root=os.path.join(REPO, 'TexSoup'), workers=workers,
                                        paths=[VERIF, REPO], progress=progress)
-    return finish(mod, plan, tier, seed, results, t0, len(units))
+    if th is not None:
+        th.join()
+    extra = extra_box[0] if extra_box else None
+    return finish(mod, plan, tier, seed, results, t0, len(units), extra)
 
 
-def finish(mod, plan, tier, seed, results, t0, nunits):
+def finish(mod, plan, tier, seed, results, t0, nunits, post=None):
     prop = mod.PROPERTY
     classify = getattr(mod, 'signature', default_signature)
     known = [k for k in load_known() if k['property'] == prop]
@@ -210,6 +226,16 @@ def finish(mod, plan, tier, seed, results, t0, nunits):
                 s['unit'] = repr(r['unit'][1:3])[:300]
                 s['input_text'] = chars(s['input_chars'])
                 samples.append(s)
+    post_ev = {}
+    if post:
+        problems.extend(post.get('problems', []))
+        for v in post.get('violations', []):
+            viols.setdefault(classify(v), []).append(v)
+        tot['paths'] += post.get('paths', 0)
+        tot['validated'] += len(post.get('violations', []))
+        stats['decisions'] += post.get('decisions', 0)
+        funcs.update(post.get('funcs', []))
+        post_ev = post.get('evidence', {})
     if tot['paths'] == 0:
         problems.append('no path explored')
     if stats['assert_queries'] == 0:
@@ -276,6 +302,7 @@ def finish(mod, plan, tier, seed, results, t0, nunits):
         'wall_s': round(wall, 2),
         'violations': len(new),
     }
+    ev['coverage'].update(post_ev)
     extra = getattr(mod, 'extra_evidence', None)
     if extra:
         ev['coverage'].update(extra(results))
